@@ -24,6 +24,10 @@ CHECKS = {
    technique="bounded-exhaustive enumeration of all ordered pairs of day ranges inside calendar windows against the documented interval relation and its algebraic laws",
    text="Every [a,b] x [c,d] (a<=b, c<=d) inside day windows across a year change, leap/non-leap February and both ends of the supported range, plus every pairing of day/month/year granularities (structs and parsed strings), is compared; result must be an admissible drawn relation, never Invalid, Equal on self-comparison, converse under operand swap, and exactly one simplified verdict.",
    note="Orientation taken from TestDateRange_Compare. Where two drawn relations hold (single-day argument touching an end) either is accepted; the converse law decides. No random ranges (sampling is a different family)."),
+ "C07": dict(engine="E3", category="exploration", design_ref="§4 C07",
+   technique="bounded-exhaustive enumeration of all small node trees over the equality-kind alphabet with all child permutations, all single edits, all copy paths and all single mutations; all ordered pairs for symmetry",
+   text="Every tree up to N nodes (quick 3 over 25 labels + 4 over 12 labels; thorough 4 + 5) is checked against the laws: every copy path (DeepCopy, identity Filter, decode(encode)) is DeepEqual both ways, serialises identically and shares no node; every re-ordering of children at every level is DeepEqual; every single insert/delete/change of a plain node is detected; every single mutation of copy or source leaves the other byte-identical; DeepEqual/DeepEqualNodes are symmetric on all ordered pairs of trees up to 3 nodes.",
+   note="Small scope: N nodes, the listed label alphabet (one or two labels per equality rule). Known finding (greedy matching + non-transitive DATE equality) is carved out by a predicate evaluated on the failing tree; permutation failures without such a triple still fire."),
  "C05": dict(engine="E3", category="exploration", design_ref="§4 C05",
    technique="bounded-exhaustive enumeration of every calendar date against an own calendar reference model",
    text="Every day, month-year and year (quick: three 400-year blocks; thorough: all of 1..9999) is run through the real Date.Time/Years/IsBefore/IsAfter/Duration/Minimum/Maximum and compared with own proleptic-Gregorian arithmetic; exhaustive as the property's quantifier states.",
